@@ -598,8 +598,272 @@ Proof.
     rewrite (steps_cons _ _ s5). 2:{ unfold s5. apply ev_Start; auto. }
     rewrite (steps_cons _ _ s6). 2:{ unfold s6. apply (ev_End s5 w j (mk_job dd p 1)); auto. }
     reflexivity. }
-  split. { unfold s6, s5, s4, s3, s2, s1; fld. rewrite !length_upd, app_length. simpl. fold w. lia. }
+  split.
+  { change (work s6) with (upd (upd (work s ++ [WRun j]) w (WRunning j)) w WLoop).
+    rewrite length_upd, length_upd, app_length. unfold w. simpl. lia. }
   split. { unfold s6; fld. eapply nth_error_upd_eq; eauto. }
   split. { exact J5. }
   reflexivity.
+Qed.
+
+(* ---------------------------------------------------------------------- *)
+(* nothing is ever stuck: from every reachable state every unfinished job can
+   still be brought to completion (so no reachable state has lost a job or
+   left it with a thread that can never hand it on) *)
+
+Definition can_finish (s : st) (j : nat) : Prop :=
+  exists es s', steps s es = Some s' /\ delivered s' j = 1.
+
+Lemma can_finish_step : forall s e s1 j, step s e = Some s1 -> can_finish s1 j -> can_finish s j.
+Proof.
+  intros s e s1 j H (es & s' & A & B). exists (e :: es), s'. split; auto.
+  rewrite (steps_cons _ _ _ _ H). exact A.
+Qed.
+
+Lemma hw_holder_job : forall s j w p, inv s ->
+  nth_error (work s) w = Some p -> hw j p = 1 ->
+  (exists x, nth_error (jobs s) j = Some x) /\ delivered s j = 0.
+Proof.
+  intros s j w p I Hw Hp. destruct I as [_ _ Ih If _ _ _ _ _ _].
+  pose proof (sumf_nth_le _ (hw j) _ _ _ Hw) as P.
+  destruct (lt_dec j (length (jobs s))).
+  - specialize (Ih _ l). unfold holders in *. split; [|lia].
+    destruct (nth_error (jobs s) j) eqn:E; eauto. apply nth_error_None in E. lia.
+  - destruct (If j) as [A B]; [lia|]. unfold holders in A. lia.
+Qed.
+
+Lemma fin_running : forall s w j, inv s -> nth_error (work s) w = Some (WRunning j) -> can_finish s j.
+Proof.
+  intros s w j I Hw.
+  destruct (hw_holder_job s j w _ I Hw) as ((x & Hx) & D). { simpl. apply b2n_eqb_refl. }
+  exists [EEnd w]. eexists. split.
+  - rewrite (steps_cons _ _ _ _ (ev_End _ _ _ _ Hw Hx)). reflexivity.
+  - unfold delivered in *; fld. rewrite sumf_app. unfold is_entry at 2. simpl.
+    rewrite Nat.eqb_refl. simpl. lia.
+Qed.
+
+Lemma fin_run : forall s w j, inv s -> nth_error (work s) w = Some (WRun j) -> can_finish s j.
+Proof.
+  intros s w j I Hw.
+  destruct (hw_holder_job s j w _ I Hw) as ((x & Hx) & D). { simpl. apply b2n_eqb_refl. }
+  pose proof (ev_Start _ _ _ _ Hw Hx) as E.
+  eapply can_finish_step; [exact E|].
+  eapply fin_running with (w := w); [eapply step_inv; eauto|].
+  fld. eapply nth_error_upd_eq; eauto.
+Qed.
+
+Lemma fin_spawn : forall s d j, inv s -> nth_error (disp s) d = Some (DSpawn j) -> can_finish s j.
+Proof.
+  intros s d j I Hd. pose proof (ev_Spawn _ _ _ Hd) as E.
+  eapply can_finish_step; [exact E|].
+  eapply fin_run with (w := length (work s)); [eapply step_inv; eauto|].
+  fld. apply nth_error_app_last.
+Qed.
+
+Lemma fin_full_room : forall s d j, inv s -> nth_error (disp s) d = Some (DFull j) ->
+  counter s < limit s -> can_finish s j.
+Proof.
+  intros s d j I Hd C. pose proof (ev_CheckOk _ _ _ Hd C) as E.
+  eapply can_finish_step; [exact E|].
+  eapply fin_spawn with (d := d); [eapply step_inv; eauto|].
+  fld. eapply nth_error_upd_eq; eauto.
+Qed.
+
+(* the dispatcher is about to try_send *)
+Lemma fin_try_recv : forall s d j w, inv s -> nth_error (disp s) d = Some (DTry j) ->
+  nth_error (work s) w = Some WRecv -> can_finish s j.
+Proof.
+  intros s d j w I Hd Hw. pose proof (ev_TrySendOk _ _ _ _ Hd Hw) as E.
+  eapply can_finish_step; [exact E|].
+  eapply fin_run with (w := w); [eapply step_inv; eauto|].
+  fld. eapply nth_error_upd_eq; eauto.
+Qed.
+
+Lemma fin_try_room : forall s d j, inv s -> nth_error (disp s) d = Some (DTry j) ->
+  any_recv s = false -> counter s < limit s -> can_finish s j.
+Proof.
+  intros s d j I Hd R C. pose proof (ev_TrySendFull _ _ _ Hd R) as E.
+  eapply can_finish_step; [exact E|].
+  eapply fin_full_room with (d := d); [eapply step_inv; eauto| |exact C].
+  fld. eapply nth_error_upd_eq; eauto.
+Qed.
+
+Lemma fin_try_loop : forall s d j w, inv s -> nth_error (disp s) d = Some (DTry j) ->
+  nth_error (work s) w = Some WLoop -> can_finish s j.
+Proof.
+  intros s d j w I Hd Hw. pose proof (ev_RecvEnter _ _ Hw) as E.
+  eapply can_finish_step; [exact E|].
+  eapply fin_try_recv with (d := d) (w := w); [eapply step_inv; eauto|exact Hd|].
+  fld. eapply nth_error_upd_eq; eauto.
+Qed.
+
+Lemma fin_try_running : forall s d j w k, inv s -> nth_error (disp s) d = Some (DTry j) ->
+  nth_error (work s) w = Some (WRunning k) -> can_finish s j.
+Proof.
+  intros s d j w k I Hd Hw.
+  destruct (hw_holder_job s k w _ I Hw) as ((x & Hx) & _). { simpl. apply b2n_eqb_refl. }
+  pose proof (ev_End _ _ _ _ Hw Hx) as E.
+  eapply can_finish_step; [exact E|].
+  eapply fin_try_loop with (d := d) (w := w); [eapply step_inv; eauto|exact Hd|].
+  fld. eapply nth_error_upd_eq; eauto.
+Qed.
+
+Lemma fin_try_run : forall s d j w k, inv s -> nth_error (disp s) d = Some (DTry j) ->
+  nth_error (work s) w = Some (WRun k) -> can_finish s j.
+Proof.
+  intros s d j w k I Hd Hw.
+  destruct (hw_holder_job s k w _ I Hw) as ((x & Hx) & _). { simpl. apply b2n_eqb_refl. }
+  pose proof (ev_Start _ _ _ _ Hw Hx) as E.
+  eapply can_finish_step; [exact E|].
+  eapply fin_try_running with (d := d) (w := w); [eapply step_inv; eauto|exact Hd|].
+  fld. eapply nth_error_upd_eq; eauto.
+Qed.
+
+Lemma fin_try_exiting : forall s d j w, inv s -> nth_error (disp s) d = Some (DTry j) ->
+  any_recv s = false -> nth_error (work s) w = Some WExiting -> can_finish s j.
+Proof.
+  intros s d j w I Hd R Hw.
+  assert (C : exists c, counter s = S c).
+  { destruct I as [Ic _ _ _ _ _ _ _ _ _].
+    pose proof (sumf_nth_le _ alive_w _ _ _ Hw) as P. simpl in P. unfold alive in Ic.
+    destruct (counter s); [lia | eauto]. }
+  destruct C as (c & C).
+  pose proof (ev_GuardDrop _ _ _ Hw C) as E.
+  eapply can_finish_step; [exact E|].
+  eapply fin_try_room with (d := d); [eapply step_inv; eauto|exact Hd| |].
+  - unfold any_recv in *; fld. apply existsb_upd_false; auto.
+  - destruct I as [_ Il _ _ _ _ _ _ _ _]. fld. lia.
+Qed.
+
+Lemma fin_try : forall s d j, inv s -> nth_error (disp s) d = Some (DTry j) -> can_finish s j.
+Proof.
+  intros s d j I Hd.
+  destruct (any_recv s) eqn:R.
+  { unfold any_recv in R. apply existsb_exists in R. destruct R as (p & Hin & Hp).
+    apply In_nth_error in Hin. destruct Hin as (w & Hw). destruct p; try discriminate.
+    eapply fin_try_recv; eauto. }
+  destruct (lt_dec (counter s) (limit s)) as [C|C].
+  { eapply fin_try_room; eauto. }
+  assert (A : 1 <= alive s + reserved s).
+  { destruct I as [Ic _ _ _ _ _ _ _ _ L1]. lia. }
+  (* some worker is alive, or some dispatcher holds a reserved slot *)
+  assert (W : forall w p, nth_error (work s) w = Some p -> alive_w p = 1 -> can_finish s j).
+  { intros w p Hw Hp. destruct p; simpl in Hp; try lia.
+    - destruct I as [_ _ _ _ _ _ Iw _ _ _]. rewrite Forall_forall in Iw.
+      exfalso. apply (Iw WSpawned); auto. eapply nth_error_In; eauto.
+    - eapply fin_try_run; eauto.
+    - eapply fin_try_running; eauto.
+    - eapply fin_try_loop; eauto.
+    - pose proof (existsb_false_nth _ _ _ _ _ R Hw). discriminate.
+    - eapply fin_try_exiting; eauto. }
+  destruct (Nat.eq_dec (alive s) 0) as [A0|A0].
+  - assert (R1 : 1 <= reserved s) by lia.
+    destruct (sumf_pos_ex _ _ _ R1) as (d' & p & Hd' & Hp).
+    destruct p; simpl in Hp; try lia.
+    pose proof (ev_Spawn _ _ _ Hd') as E.
+    eapply can_finish_step; [exact E|].
+    assert (Hne : d' <> d) by (intro; subst; congruence).
+    eapply fin_try_run with (d := d) (w := length (work s)); [eapply step_inv; eauto| |].
+    + fld. rewrite nth_error_upd_ne by auto. exact Hd.
+    + fld. apply nth_error_app_last.
+  - assert (A1 : 1 <= alive s) by lia.
+    destruct (sumf_pos_ex _ _ _ A1) as (w & p & Hw & Hp).
+    eapply W; eauto. destruct p; simpl in *; lia.
+Qed.
+
+Lemma fin_rejected : forall s d j, inv s -> nth_error (disp s) d = Some (DRejected j) -> can_finish s j.
+Proof.
+  intros s d j I Hd. pose proof (ev_Retry _ _ _ Hd) as E.
+  eapply can_finish_step; [exact E|].
+  eapply fin_try with (d := d); [eapply step_inv; eauto|].
+  fld. eapply nth_error_upd_eq; eauto.
+Qed.
+
+Lemma fin_full : forall s d j, inv s -> nth_error (disp s) d = Some (DFull j) -> can_finish s j.
+Proof.
+  intros s d j I Hd.
+  destruct (lt_dec (counter s) (limit s)) as [C|C].
+  { eapply fin_full_room; eauto. }
+  assert (L1 : 1 <= limit s) by (destruct I; auto).
+  pose proof (ev_CheckFail _ _ _ Hd L1 ltac:(lia)) as E.
+  eapply can_finish_step; [exact E|].
+  eapply fin_rejected with (d := d); [eapply step_inv; eauto|].
+  fld. eapply nth_error_upd_eq; eauto.
+Qed.
+
+Lemma never_stuck : forall l d es s j, 1 <= l ->
+  steps (init l d) es = Some s -> j < length (jobs s) -> delivered s j = 0 ->
+  exists es' s', steps s es' = Some s' /\ delivered s' j = 1.
+Proof.
+  intros l d es s j L H Hj D.
+  pose proof (reachable_inv _ _ _ _ L H) as I.
+  assert (Hh : holders s j = 1). { destruct I as [_ _ Ih _ _ _ _ _ _ _]. specialize (Ih _ Hj). lia. }
+  unfold holders in Hh.
+  change (can_finish s j).
+  destruct (Nat.eq_dec (sumf (hd j) (disp s)) 0) as [Z|Z].
+  - assert (P : 1 <= sumf (hw j) (work s)) by lia.
+    destruct (sumf_pos_ex _ _ _ P) as (w & p & Hw & Hp).
+    destruct p; simpl in Hp; try lia; destruct (Nat.eqb_spec j0 j); simpl in Hp; try lia; subst.
+    + eapply fin_run; eauto.
+    + eapply fin_running; eauto.
+  - assert (P : 1 <= sumf (hd j) (disp s)) by lia.
+    destruct (sumf_pos_ex _ _ _ P) as (dd & p & Hd & Hp).
+    assert (ND : new_d p).
+    { destruct I as [_ _ _ _ _ _ _ Id _ _]. rewrite Forall_forall in Id. apply Id. eapply nth_error_In; eauto. }
+    destruct p; simpl in Hp, ND; try lia; try contradiction;
+      destruct (Nat.eqb_spec j0 j); simpl in Hp; try lia; subst.
+    + eapply fin_try; eauto.
+    + eapply fin_full; eauto.
+    + eapply fin_spawn; eauto.
+    + eapply fin_rejected; eauto.
+Qed.
+
+(* ---------------------------------------------------------------------- *)
+(* the protocol before the fixes: witnesses *)
+
+(* D10: two dispatchers, limit 1 — both pass the limit check before either
+   worker has counted itself in; two jobs run at once *)
+Definition d10_trace : list ev :=
+  [ECall 0 false; ECall 1 false; ETrySendFull 0; ETrySendFull 1;
+   ECheckOk 0; ECheckOk 1; ESpawn 0; ESpawn 1; ESendBlock 0; ESendBlock 1;
+   EWorkerInc 0; EWorkerInc 1; ERecvTake 0 0; ERecvTake 1 1; EStart 0; EStart 1].
+
+Lemma old_bounded_refuted :
+  exists s, steps_old (init 1 2) d10_trace = Some s /\
+            limit s = 1 /\ running s = 2 /\ alive s = 2 /\ counter s = 2.
+Proof. eexists. split; [vm_compute; reflexivity|]. vm_compute. auto. Qed.
+
+(* a single dispatcher, limit 2 — a slowly starting worker is not counted yet
+   when the next dispatch checks the limit: three workers alive *)
+Definition d10_single_trace : list ev :=
+  [ECall 0 false; ETrySendFull 0; ECheckOk 0; ESpawn 0; ESendBlock 0;
+   EWorkerInc 0; ERecvTake 0 0; EStart 0;
+   ECall 0 false; ETrySendFull 0; ECheckOk 0; ESpawn 0; ESendBlock 0;
+   EEnd 0; ERecvTake 0 0; EStart 0;
+   ECall 0 false; ETrySendFull 0; ECheckOk 0; ESpawn 0; ESendBlock 0;
+   EWorkerInc 1; EWorkerInc 2; ERecvTake 1 0; EStart 1].
+
+Lemma old_bounded_single_refuted :
+  exists s, steps_old (init 2 1) d10_single_trace = Some s /\
+            limit s = 2 /\ alive s = 3 /\ counter s = 3 /\ running s = 2.
+Proof. eexists. split; [vm_compute; reflexivity|]. vm_compute. auto. Qed.
+
+(* the hand-over window: the fresh worker times out and exits before the
+   dispatcher reaches its blocking send; the dispatcher then waits forever *)
+Definition handover_trace : list ev :=
+  [ECall 0 false; ETrySendFull 0; ECheckOk 0; ESpawn 0;
+   EWorkerInc 0; ERecvEnter 0; ETimeout 0; EGuardDrop 0; ESendBlock 0].
+
+Lemma old_handover_stuck :
+  exists s, steps_old (init 1 1) handover_trace = Some s /\
+            disp s = [DSendWait 0] /\ work s = [WExited] /\
+            delivered s 0 = 0 /\ running_j s 0 = 0 /\
+            forall e, step_old s e = None.
+Proof.
+  eexists. split; [vm_compute; reflexivity|].
+  split; [reflexivity|]. split; [reflexivity|]. split; [reflexivity|]. split; [reflexivity|].
+  intros e. destruct e; cbn;
+    repeat (match goal with
+            | |- context [nth_error _ ?n] => is_var n; destruct n; cbn
+            end); reflexivity.
 Qed.
